@@ -783,11 +783,21 @@ class Interp(ExprMixin, CallMixin):
             if h.name:
                 sub.env[h.name] = Sym('caught', excs)
             snap_h = self.key_snapshot()
+            deleted_h = {id(p): (p, set(p.deleted)) for p in self.parsers}
             sh = self.exec_body(h.body, sub)
             statuses.append(sh)
             if sh == 'next':
                 ends.append(sub)
                 key_sets.append(self.key_changes(snap_h))
+            else:
+                # the handler leaves the function: what it deleted from (or stored into) the parsers is not seen by the code after the
+                # try statement, which is reached on the other paths only
+                for pid, (p, dl) in deleted_h.items():
+                    p.deleted = set(dl)
+                for pid, (p, ks) in snap_h.items():
+                    for k, v in ks.items():
+                        if p.keys.get(k) is not v:
+                            p.keys[k] = v
         node.statuses = statuses
         if st.finalbody:
             fin = self.fork(fr, node.final)
